@@ -1,4 +1,5 @@
 import SockModel.Model.SendLoopLemmas
+import SockModel.Spec.C01
 import SockModel.Generated.Funcs
 import SockModel.Model.GenWorld
 import SockModel.Generated.Loops
@@ -15,6 +16,10 @@ documented domain `|T| < 2^31`.
 
 The TCP connection itself is the assumption A-TCP (a connected pair is a FIFO byte
 queue); `Chan` below states it and `stream_integrity` composes the two.
+
+The loop invariants `sendAllLoop_inv` / `sendTry_inv` / `sendSomeLoop_inv` are proved in
+`Model/SendLoopLemmas.lean` (shared with `Spec/C01.lean`); `spec_holds_on_model` (end of the file, before the
+source-derived tie) links the run-time oracle of `./check C01` to the model.
 -/
 namespace SockModel.SendLoop
 open SockModel.Deadline
@@ -23,47 +28,8 @@ open SockModel.Deadline
 theorem sendAllLoop_spec (fuel : Nat) (rem : Bytes) (sent : Nat) (os os' : Os) (r : Res Nat)
     (h : sendAllLoop fuel rem sent os = (r, os')) :
     ∃ n, n ≤ rem.length ∧ wire os' = wire os ++ rem.take n ∧
-      (∀ m, r = .ok m → m = sent + rem.length ∧ n = rem.length) := by
-  induction fuel generalizing rem sent os with
-  | zero => cases h; exact ⟨0, by omega, by simp, by intro m h; cases h⟩
-  | succ fuel ih =>
-    unfold sendAllLoop at h
-    cases hw : wait (-1) os with
-    | mk rw osw =>
-      rw [hw] at h
-      have hwf := wait_spec hw (by decide) (by decide)
-      cases rw with
-      | exn e => cases h; exact ⟨0, by omega, by simp [hwf.1], by intro m h; cases h⟩
-      | ok b =>
-        simp only at h
-        cases hs : sendNow rem osw with
-        | mk rs oss =>
-          rw [hs] at h
-          obtain ⟨_, _, _, _, _, _, n, hn, hwire, hok⟩ := sendNow_facts hs
-          cases rs with
-          | exn e =>
-            cases h
-            exact ⟨n, hn, by rw [hwire, hwf.1], by intro m h; cases h⟩
-          | ok k =>
-            simp only at h
-            have hk := (hok k rfl).1
-            subst hk
-            split at h
-            · rename_i hemp
-              cases h
-              have hlen : rem.length ≤ k := by simpa using hemp
-              have hkl : k = rem.length := by omega
-              refine ⟨k, hn, by rw [hwire, hwf.1], ?_⟩
-              intro m hm; cases hm
-              exact ⟨by omega, hkl⟩
-            · obtain ⟨n2, hn2, hwire2, hok2⟩ := ih (rem.drop k) (sent + k) oss h
-              refine ⟨k + n2, ?_, ?_, ?_⟩
-              · simp only [List.length_drop] at hn2; omega
-              · rw [hwire2, hwire, hwf.1, List.append_assoc, take_drop_take]
-              · intro m hm
-                obtain ⟨h1, h2⟩ := hok2 m hm
-                simp only [List.length_drop] at h1 h2
-                exact ⟨by omega, by omega⟩
+      (∀ m, r = .ok m → m = sent + rem.length ∧ n = rem.length) :=
+  sendAllLoop_inv fuel rem sent os os' r h
 
 /-- "A Send with unlimited timeout returns only after all its bytes were accepted (n = size)":
 and exactly the caller's bytes were handed to the OS, whatever the short-write pattern. -/
@@ -82,82 +48,14 @@ theorem sendAll_fail_prefix (data : Bytes) (os os' : Os) (e : Exn) (h : sendAll 
 
 /-- `SendTry` (timeout 0): `0 ≤ n ≤ size`, and exactly the first n bytes reached the OS -/
 theorem sendTry_count (data : Bytes) (os os' : Os) (r : Res Nat) (h : sendTry data os = (r, os')) :
-    ∃ n, n ≤ data.length ∧ wire os' = wire os ++ data.take n ∧ (∀ m, r = .ok m → m = n) := by
-  unfold sendTry at h
-  cases hw : wait 0 os with
-  | mk rw osw =>
-    rw [hw] at h
-    have hwf := wait_spec hw (by decide) (by decide)
-    cases rw with
-    | exn e => cases h; exact ⟨0, by omega, by simp [hwf.1], by intro m h; cases h⟩
-    | ok b =>
-      cases b with
-      | false => cases h; exact ⟨0, by omega, by simp [hwf.1], by intro m h; cases h; rfl⟩
-      | true =>
-        simp only at h
-        obtain ⟨_, _, _, _, _, _, n, hn, hwire, hok⟩ := sendNow_facts h
-        exact ⟨n, hn, by rw [hwire, hwf.1], fun m hm => (hok m hm).1⟩
+    ∃ n, n ≤ data.length ∧ wire os' = wire os ++ data.take n ∧ (∀ m, r = .ok m → m = n) :=
+  sendTry_inv data os os' r h
 
 /-- loop invariant of `SendSome` -/
 theorem sendSomeLoop_spec (deadline : Int) (fuel : Nat) (rem : Bytes) (sent : Nat) (dnow : Int) (os os' : Os)
     (r : Res Nat) (h : sendSomeLoop deadline fuel rem sent dnow os = (r, os')) :
-    ∃ n, n ≤ rem.length ∧ wire os' = wire os ++ rem.take n ∧ (∀ m, r = .ok m → m = sent + n) := by
-  induction fuel generalizing rem sent dnow os with
-  | zero => cases h; exact ⟨0, by omega, by simp, by intro m h; cases h⟩
-  | succ fuel ih =>
-    unfold sendSomeLoop at h
-    cases hw : wait (Deadline.limited dnow deadline).remaining os with
-    | mk rw osw =>
-      rw [hw] at h
-      -- `wait` never touches the wire (no bound on the timeout needed for that)
-      have hwire0 : wire osw = wire os := by
-        unfold wait at hw
-        split at hw
-        · have := (waitFixed_facts (toMsec (Deadline.limited dnow deadline).remaining) (os.polls.length + 1) os).wire
-          rw [hw] at this; exact this
-        · have : ∀ (dl : Int) (fuel : Nat) (o : Os), wire (waitLimited dl fuel o).2 = wire o := by
-            intro dl fuel
-            induction fuel with
-            | zero => intro o; rfl
-            | succ fuel ih2 =>
-              intro o
-              unfold waitLimited
-              cases hp : pollOnce (toMsec (Deadline.limited o.now dl).remaining) o with
-              | none => rfl
-              | some x =>
-                obtain ⟨a, o1⟩ := x
-                cases a with
-                | ready d => exact pollOnce_wire hp
-                | timedOut => exact pollOnce_wire hp
-                | fail e => exact pollOnce_wire hp
-                | eintr d => simp only; rw [ih2 o1, pollOnce_wire hp]
-          have := this (os.now + (Deadline.limited dnow deadline).remaining * nsPerMs) (os.polls.length + 1) os
-          rw [hw] at this; exact this
-      cases rw with
-      | exn e => cases h; exact ⟨0, by omega, by simp [hwire0], by intro m h; cases h⟩
-      | ok b =>
-        cases b with
-        | false => cases h; exact ⟨0, by omega, by simp [hwire0], by intro m h; cases h; rfl⟩
-        | true =>
-          simp only at h
-          cases hs : sendNow rem osw with
-          | mk rs oss =>
-            rw [hs] at h
-            obtain ⟨_, _, _, _, _, _, n, hn, hwire, hok⟩ := sendNow_facts hs
-            cases rs with
-            | exn e => cases h; exact ⟨n, hn, by rw [hwire, hwire0], by intro m h; cases h⟩
-            | ok k =>
-              simp only at h
-              have hk := (hok k rfl).1
-              subst hk
-              split at h
-              · cases h
-                exact ⟨k, hn, by rw [hwire, hwire0], by intro m hm; cases hm; rfl⟩
-              · obtain ⟨n2, hn2, hwire2, hok2⟩ := ih (rem.drop k) (sent + k) osw.now oss h
-                refine ⟨k + n2, ?_, ?_, ?_⟩
-                · simp only [List.length_drop] at hn2; omega
-                · rw [hwire2, hwire, hwire0, List.append_assoc, take_drop_take]
-                · intro m hm; have := hok2 m hm; omega
+    ∃ n, n ≤ rem.length ∧ wire os' = wire os ++ rem.take n ∧ (∀ m, r = .ok m → m = sent + n) :=
+  sendSomeLoop_inv deadline fuel rem sent dnow os os' r h
 
 /-- "any other Send returns 0 ≤ n ≤ size": for every timeout mode the count returned is exactly the
 number of leading bytes of the buffer that were handed to the OS - nothing lost, duplicated,
@@ -343,6 +241,19 @@ example : wire (sendAll [1, 2, 3, 4, 5] { polls := [.ready 0, .ready 0], sends :
     = [1, 2] := by decide
 
 end SockModel.SendLoop
+
+/-! ## The run-time oracle is a theorem of the model (`Spec/C01.lean`) -/
+namespace SockModel.Spec.C01
+/-- the predicate `./check C01` evaluates on the implementation's observations (`Spec/C01.lean`: `specStep`
+with `specSend`, `specRecv`, `specSendTo`, `specRecvFrom`, `specListen`, the `sync` / `precv` comparisons,
+`MSG_NOSIGNAL`) accepts every trace of the model (`send` / `receive` / `sendTo` / `receiveFrom` / `acceptT`
+of `Model/SendLoop.lean` on arbitrary scripted OS answers, composed with the FIFO environment `Sys`), for
+every history of any length.  `histOk` is the domain: receive buffers of at least one byte, no "timed out"
+answer of the kernel to the unlimited poll of a `SendTo`, one datagram in flight to the raw peer at a time. -/
+theorem spec_holds_on_model (history : List Op) (h : histOk {} history = true) :
+    ∃ s, specRun {} (modelTrace {} history) = .ok s :=
+  model_satisfies_spec history h
+end SockModel.Spec.C01
 
 /-! ## Source-derived tie (DESIGN.md §0.7)
 
